@@ -246,10 +246,66 @@ def run(prog: Program, res: Result) -> None:
                     bad("R5-zero-denominator", n,
                         f"`{norm(n, 80)}` in {f.qualname}: the denominator `{norm(den, 50)}` is 0 for the valid configuration {shown} and the "
                         f"numerator is a Python scalar: ZeroDivisionError part-way through optimize()", mod=f.module)
+    # ------------------------------------------------------------------ R6 partial stdlib math on data-dependent values
+    PARTIAL = {"exp": "OverflowError above ~709", "cosh": "OverflowError above ~710", "sinh": "OverflowError above ~710",
+               "expm1": "OverflowError", "pow": "OverflowError / ValueError", "ldexp": "OverflowError", "factorial": "ValueError",
+               "log": "ValueError for <= 0", "log10": "ValueError for <= 0", "log2": "ValueError for <= 0", "log1p": "ValueError for <= -1",
+               "sqrt": "ValueError for < 0", "acos": "ValueError outside [-1, 1]", "asin": "ValueError outside [-1, 1]",
+               "acosh": "ValueError for < 1", "atanh": "ValueError outside (-1, 1)", "gamma": "OverflowError / ValueError",
+               "lgamma": "ValueError at poles", "fmod": "ValueError for y == 0"}
+    n_math = 0
+    for f in prog.all_functions():
+        if f.cls is None or not prog.is_subclass(f.cls, ABSTRACT):
+            continue
+        r6 = Resolver(prog, None)
+        for n in own_nodes(f):
+            if isinstance(n, ast.Call):
+                ext = r6.ext_name(f, n.func)
+                if ext and ext.startswith("math.") and ext[5:] in PARTIAL:
+                    n_math += 1
+                    dep = _data_dependent(f, n)
+                    key = construct_key(prog, n, f.module)
+                    res.ob(dep is None, f"{f.module.relpath}:{n.lineno} {norm(n, 60)}: argument is configuration/constant only" if dep is None else None, key)
+                    if dep is not None:
+                        bad("R6-partial-math-on-data", n,
+                            f"`{norm(n, 70)}` in {f.qualname} applies the stdlib `{ext}` ({PARTIAL[ext[5:]]}) to a value derived from "
+                            f"`{dep}`: costs/positions are unbounded over valid tasks, so optimize() can fail part-way where the numpy "
+                            f"equivalent would give inf/nan", mod=f.module)
+    res.count("stdlib-math-partial-calls", n_math)
     res.count("divisions-in-optimizers", n_div)
     res.count("config-affine-denominators-evaluated", n_eval)
     res.floor("divisions-in-optimizers", 150)
     res.floor("config-affine-denominators-evaluated", 20)
+
+
+def _data_dependent(f: FuncInfo, call: ast.Call, depth: int = 4):
+    """Text of an agent-derived sub-expression (.cost / .fitness / .position) feeding the call, following local names."""
+    from ..flow import store_sites
+
+    def walk(e, d):
+        if d <= 0:
+            return None
+        for x in ast.walk(e):
+            if isinstance(x, ast.Attribute) and x.attr in ("cost", "fitness", "position"):
+                return norm(x)
+            if isinstance(x, ast.Name) and isinstance(x.ctx, ast.Load):
+                scope = f
+                while scope is not None:
+                    sites = store_sites(scope.node, x.id)
+                    if sites:
+                        for (_s, v, k) in sites:
+                            if k == "assign" and v is not None:
+                                r = walk(v, d - 1)
+                                if r:
+                                    return r
+                        break
+                    scope = scope.outer
+        return None
+    for a in list(call.args) + [k.value for k in call.keywords]:
+        r = walk(a, depth)
+        if r:
+            return r
+    return None
 
 
 def _sym(f: FuncInfo, e: ast.AST):
@@ -363,6 +419,12 @@ VARIANTS = [
     V("zero-denominator-reintroduced", _IW, "/ max(self._config.max_cycles - 1, 1)", "/ (self._config.max_cycles - 1)", "C06.R5"),
     V("new-decay-divides-by-remaining-cycles", _W, "        a = 2 - 2 * self._current_cycle / self._config.max_cycles\n",
       "        a = 2 - 2 * self._current_cycle / self._config.max_cycles\n        a = a * (1.0 / (self._config.max_cycles - self._current_cycle))\n", "C06.R5"),
+    V("stdlib-cosh-on-cost-spread", "pyvolutionary/hunger_games_search/hunger_games_search_optimization.py",
+      "            E = 0.5 if np.abs(x) > 50 else 2 / (np.exp(x) + np.exp(-x))\n", "            E = 1 / math.cosh(x)\n", "C06.R6",
+      more=[("pyvolutionary/hunger_games_search/hunger_games_search_optimization.py", "import numpy as np\n", "import math\nimport numpy as np\n")]),
+    V("twin-math-on-config", _W, "        a = 2 - 2 * self._current_cycle / self._config.max_cycles\n",
+      "        a = 2 - 2 * self._current_cycle / self._config.max_cycles\n        a = a * math.exp(-self._current_cycle / self._config.max_cycles) / math.exp(-self._current_cycle / self._config.max_cycles)\n", None,
+      more=[(_W, "import numpy as np\n", "import math\nimport numpy as np\n")]),
     V("config-check-swallowed", _A, "        if not self._config:\n            raise ValueError(\"Invalid configuration\")\n\n", "        if not self._config:\n            return None\n\n", "C06.R1"),
     V("mode-except-broad-typeerror", _A, "            except ValueError:\n                raise ValueError(\"Invalid mode.", "            except ValueError:\n                raise TypeError(\"Invalid mode.", "C06.R1"),
     V("twin-guards-reordered", _A,
